@@ -24,24 +24,37 @@ def make_harness(spec_name, spec_fn, T):
         case = spec_fn(ch, T.at(k))
         if case is None:
             raise Skip("spec declined")
-        opts = [o for o in W.argnum_options(case) if o != "same" and len(o) == 1]
+        opts = [o for o in W.argnum_options(case) if o != "same" and len(o) <= 2]
         which = ch.choose("argnum", opts)
         A = W.ag()
         ag, anp = A["autograd"], A["anp"]
         f = case.fn()
         names = list(case.ops)
         vals = [case.ops[n] for n in names]
-        i = which[0]
-        x = vals[i]
-        if not isinstance(x, onp.ndarray) or onp.iscomplexobj(x) or x.ndim == 0:
-            x = onp.asarray(x, dtype=float) if not onp.iscomplexobj(x) else None
-            if x is None:
-                raise Skip("complex operand: C09's subject")
+        if any(onp.iscomplexobj(vals[i]) for i in which):
+            raise Skip("complex operand: C09's subject")
+        if len(which) == 1:
+            i = which[0]
+            x = onp.asarray(vals[i], dtype=float)
 
-        def call(np_, xx):
-            args = list(vals)
-            args[i] = xx
-            return f(np_, *args)
+            def call(np_, xx):
+                args = list(vals)
+                args[i] = xx
+                return f(np_, *args)
+        else:
+            # joint second derivative w.r.t. two operands: one flat vector z = [x.ravel(), y.ravel()] (mixed partials included)
+            parts = [onp.asarray(vals[i], dtype=float) for i in which]
+            sizes = [p_.size for p_ in parts]
+            x = onp.concatenate([p_.ravel() for p_ in parts])
+
+            def call(np_, zz):
+                args = list(vals)
+                off = 0
+                for i_, p_, n_ in zip(which, parts, sizes):
+                    piece = zz[off:off + n_]
+                    args[i_] = np_.reshape(piece, p_.shape) if p_.shape else piece[0]
+                    off += n_
+                return f(np_, *args)
 
         with warnings.catch_warnings():
             warnings.simplefilter("ignore")
